@@ -43,6 +43,10 @@ C = {
    text="Lean theorems: with spoofing off the HTTP address is the proxy-header/remote address for all ip/ipv4/ipv6 parameters, and two UDP announces differing only in the packet IP field are handled identically; with spoofing on HTTP uses the first present of ip, ipv4, ipv6 (unparsable => rejected, absent => source) and UDP uses a non-zero field as given in its own family (4 bytes action 1, 16 bytes action 4) and the source for a zero field; the registered address is that address in canonical form. Tied by exhaustive product grids through the real HTTP parser and UDP handler.",
    note="trusted: Lean kernel + 3 standard axioms; harness + shims; net.ParseIP/SplitHostPort results supplied to the model by the harness; reading R5 of DESIGN §7 (HTTP ip=0.0.0.0 is an explicit address)",
    tech="Lean 4 proof (non-interference / decision logic, corollaries of the C06 and C07 parser theorems) + differential correspondence check"),
+ "C08": dict(
+   text="Lean theorems over a model of frontend/http/writer.go producing the value handed to the bencode encoder: for every valid response the announce value (compact or dictionary form) is a well-formed dictionary with distinct keys holding exactly complete, incomplete, interval and min interval in whole seconds, peers = the IPv4 peers as 6-byte entries / peers6 = the IPv6 peers as 18-byte entries (present iff non-empty; client-side uncompact returns exactly the peers) or the list of (peer id, textual address, port) dictionaries v4 then v6; scrape maps each distinct infohash to its counts (repeats collapse); failures carry the client message or one fixed generic message (identical for all internal errors). With C19: whatever the entry order, a client decodes the body to that value with nothing left over and lookups do not depend on the order. Tied by differential runs decoding the real bodies with an independent client library (which also insists on sorted keys).",
+   note="trusted: Lean kernel + 3 standard axioms; harness; anacrolix/torrent/bencode as the independent client; net.IP.String passed to the model; sortedness of keys (BEP 3) is checked by the independent decoder on every case, not by a theorem",
+   tech="Lean 4 proof (well-formedness + field lookups of the response value, permutation invariance, C19 round trip) + differential correspondence through an independent decoder"),
 }
 
 def main():
